@@ -9,10 +9,10 @@ CONSTANTS
   MCN = 3
   MaxLen = 2
   Alphabet = "narrow"
-  Prefits = {"none", "fitbase"}
+  Prefits = {"none", "fit", "fitbase"}
   CfgSel = "all"
   Sample = 0
-  Depth = 3
+  Depth = 4
 CONSTRAINT Bound
 VIEW MCView
 INVARIANT TypeOK
